@@ -343,8 +343,147 @@ def _fold_flow(ctx) -> None:
     ctx.ob("FOLD.forward", "DateTime.set/fold", fwd, "set() must forward fold=self.fold to create() (second/minute/hour rely on it)", m.loc(setf))
 
 
+UNIT: dict[tuple[str, str], bool | None] = {}
+
+
+def _bounds(w, unit: str, week_start: int):
+    """[first, last] wall instant of the calendar unit of `w` (naive datetime), the checker's own calendar arithmetic"""
+    import calendar
+    import datetime as _dt
+    day0 = w.replace(hour=0, minute=0, second=0, microsecond=0)
+    eod = _dt.timedelta(days=1) - _dt.timedelta(microseconds=1)
+    if unit == "second":
+        return w.replace(microsecond=0), w.replace(microsecond=999999)
+    if unit == "minute":
+        return w.replace(second=0, microsecond=0), w.replace(second=59, microsecond=999999)
+    if unit == "hour":
+        return w.replace(minute=0, second=0, microsecond=0), w.replace(minute=59, second=59, microsecond=999999)
+    if unit == "day":
+        return day0, day0 + eod
+    if unit == "week":
+        lo = day0 - _dt.timedelta(days=(w.weekday() - week_start) % 7)
+        return lo, lo + _dt.timedelta(days=6) + eod
+    if unit == "month":
+        return day0.replace(day=1), day0.replace(day=calendar.monthrange(w.year, w.month)[1]) + eod
+    if unit == "year":
+        return day0.replace(month=1, day=1), day0.replace(month=12, day=31) + eod
+    if unit == "decade":
+        y = w.year - w.year % 10
+        return day0.replace(year=y, month=1, day=1), day0.replace(year=y + 9, month=12, day=31) + eod
+    if unit == "century":
+        y = (w.year - 1) - (w.year - 1) % 100 + 1
+        return day0.replace(year=y, month=1, day=1), day0.replace(year=y + 99, month=12, day=31) + eod
+    raise ValueError(unit)
+
+
+def _unit_tabulate(ctx, cls: str) -> None:
+    """UNIT.tabulated: start_of(u) / end_of(u) decided on values.  Both dispatchers and every helper they reach are run by the
+    checker's interpreter in the wall-clock world of rules/wallstub.py on instances spread over leap days, month / year /
+    decade / century ends and times of day, in a zone without transition and in zones whose one transition skips or repeats
+    the first or the last stretch of the unit (one hour and thirty minutes), for both folds of a repeated instance, and for
+    the seven week configurations.  The result must be the first / last existing instant of the calendar unit of the instance
+    (the checker's own calendar arithmetic): a skipped start resolved forward, a skipped end backward, a repeated start of a day
+    or larger unit its first occurrence, a repeated end its last, within an hour the occurrence of the instance; it must lie on
+    the right side of the instance as instants, keep the timezone, and be reproduced when the modifier is applied again."""
+    import datetime as _dt
+    from ..rules import minieval, wallstub
+    m = pmod(core.CLASS_HOME[cls])
+    is_dt = cls == "DateTime"
+    extra = pmod("date").methods("Date") if is_dt else None
+    deep = ctx.tier == "thorough"
+    try:
+        units = list(core.fold(m.assign("_MODIFIERS_VALID_UNITS", cls), m, cls))
+    except Exception as e:      # noqa: BLE001
+        ctx.unverified("UNIT.tabulated", f"{cls}", f"_MODIFIERS_VALID_UNITS: {e}", m.rel)
+        return
+    H, M30, US1 = _dt.timedelta(hours=1), _dt.timedelta(minutes=30), _dt.timedelta(microseconds=1)
+    dates = [(2024, 2, 29), (2000, 1, 1), (1999, 12, 31), (2021, 3, 14), (2030, 12, 31), (2001, 1, 1), (2021, 11, 7)]
+    times = [(0, 0, 0, 0), (12, 34, 56, 789012), (23, 59, 59, 999999), (1, 45, 30, 500000)]
+    if not deep:
+        dates, times = dates[:5], times[:3]
+    small = ("second", "minute", "hour")
+    for which in ("start_of", "end_of"):
+        bad, n = [], 0
+        start = which == "start_of"
+        try:
+            for unit in units:
+                for d in dates:
+                    for t in (times if is_dt else times[:1]):
+                        w0 = _dt.datetime(*d, *t)
+                        for ws in (range(7) if unit == "week" and d == dates[3] and t == times[0] else (0,)):
+                            lo, hi = _bounds(w0, unit, ws)
+                            trs = [None]
+                            if is_dt and (deep or d in dates[:4]):
+                                trs += [("skip", lo, H), ("skip", lo, M30), ("repeat", lo + H, H), ("repeat", lo + M30, M30),
+                                        ("skip", hi + US1 - M30, M30), ("skip", hi + US1 - H, H), ("repeat", hi + US1, H), ("repeat", hi + US1, M30)]
+                            for tr in trs:
+                                wld = wallstub.World(m, cls, transition=tr, week=(ws, (ws + 6) % 7), extra=extra)
+                                if not is_dt:
+                                    insts = [wld.date(w0.date())]
+                                elif wld.skipped(w0):
+                                    continue            # the instance itself would not exist
+                                else:
+                                    insts = [wld.datetime(w0, f) for f in (0, 1)]     # an unambiguous value may carry either fold (0 after arithmetic)
+                                for x in insts:
+                                    n += 1
+                                    label = f"{which}({unit!r}) of {w0.isoformat(' ') if is_dt else w0.date()}" + (f" fold={vars(x)['fold']}" if is_dt else "") \
+                                        + (f" [{tr[0]} {tr[1].isoformat(' ')} +{tr[2]}]" if tr else "") + (f" [week starts on {ws}]" if ws else "")
+                                    try:
+                                        got = wld.call(x, which, [unit])
+                                    except (minieval.Raised, ValueError) as e:
+                                        bad.append(f"{label}: raises {getattr(e, 'exc_name', type(e).__name__)} ({str(e)[:60]})")
+                                        continue
+                                    g = vars(got) if isinstance(got, minieval.Obj) else {}
+                                    if not is_dt:
+                                        want_d = (lo if start else hi).date()
+                                        if g.get("_date") != want_d:
+                                            bad.append(f"{label}: {g.get('_date')} (expected {want_d})")
+                                        continue
+                                    want = wld.resolve(lo, 1) if start else wld.resolve(hi, 0)
+                                    if g.get("_wall") != want:
+                                        bad.append(f"{label}: {g.get('_wall')} (expected {want.isoformat(' ')})")
+                                        continue
+                                    if wld.ambiguous(want):
+                                        if unit in small:
+                                            wf = vars(x)["fold"] if wld.ambiguous(w0) else None
+                                        else:
+                                            wf = 0 if start else 1
+                                        if wf is not None and g.get("fold") != wf:
+                                            bad.append(f"{label}: the {'second' if g.get('fold') else 'first'} occurrence of the repeated {want.time()} (expected the "
+                                                       f"{'second' if wf else 'first'})")
+                                            continue
+                                    ix, ig = wld.instant(x), wld.instant(got)
+                                    if (ig > ix) if start else (ig < ix):
+                                        bad.append(f"{label}: the result is {'after' if start else 'before'} the instance as an instant")
+                                        continue
+                                    if g.get("tz") is not wld.tz:
+                                        bad.append(f"{label}: the timezone is not kept")
+                                        continue
+                                    again = wld.call(got, which, [unit])
+                                    a = vars(again) if isinstance(again, minieval.Obj) else {}
+                                    if a.get("_wall") != want or (wld.ambiguous(want) and a.get("fold") != g.get("fold")):
+                                        bad.append(f"{label}: applied again it gives {a.get('_wall')} fold={a.get('fold')} (not idempotent)")
+        except wallstub.ERRORS as e:
+            UNIT[(cls, which)] = None
+            ctx.unverified("UNIT.tabulated", f"{cls}.{which}", f"outside the checker's interpreter: {type(e).__name__}: {e}", m.loc(m.func(f"{cls}.{which}")))
+            continue
+        UNIT[(cls, which)] = not bad
+        ctx.ob("UNIT.tabulated", f"{cls}.{which}", not bad,
+               f"{n} (unit, instance, zone transition, week configuration) cases: " + (f"wrong: {bad[:3]}" if bad else
+               f"always the {'first' if start else 'last'} existing instant of the unit"), m.loc(m.func(f"{cls}.{which}")))
+        ctx.count(f"unit_cases_{cls}_{which}", n)
+
+
 def run(ctx) -> None:
     ctx.explanation = EXPLANATION
+    UNIT.clear()
+    ctx.step(_unit_tabulate, ctx, "DateTime")
+    ctx.step(_unit_tabulate, ctx, "Date")
+    for cls_ in ("DateTime", "Date"):
+        if UNIT.get((cls_, "start_of")) and UNIT.get((cls_, "end_of")):
+            # how the modifiers of this class are written (field lists, year formulas, week pairing, fold flow) is then not a property
+            ctx.established(("LATTICE", "YEAR.form", "SIBLING.year", "WEEK.pairing", "FOLD.tabulated", "FOLD.flow", "FOLD.small-units", "FOLD.forward", "DISPATCH.name",
+                             "DISPATCH.listed"), f"{cls_}.", "UNIT.tabulated")
     ctx.step(_dispatch, ctx)
     ctx.step(_lattice, ctx)
     ctx.step(_years, ctx)
